@@ -20,7 +20,8 @@ FAMILY = {
     "C08": {"results_read_when_idle", "one_stored_chain_per_started_epoch",
             "tracked_keys_respect_included_excluded", "stored_chain_is_thinned_per_iteration_states",
             "stored_chain_empty_iff_nothing_kept", "transition_infos_for_every_transition",
-            "kernel_states_for_every_transition", "posterior_accessor_returns_exactly_posterior_epochs"},
+            "kernel_states_for_every_transition", "posterior_accessor_returns_exactly_posterior_epochs",
+            "generated_quantities_once_per_stored_iteration_from_post_transition_state"},
     "C09": {"starts_from_state_left_by_predecessor", "blocks_only_written_by_their_own_kernel",
             "probe_wrote_expected_tag"},
     "C10": {"fresh_random_key_for_every_call", "keys_distinct_across_chains_and_calls"},
@@ -30,6 +31,7 @@ MC_CFG = """CONSTANTS FlagSet = {flag}
  Ks = {ks}
  Js = {js}
  Hists = {{{{}}, {{1}}, {{2}}}}
+ NQs = {nqs}
  Types = {{1,2,3,4}}
  Durs = {durs}
  Thins = {{1,2}}
@@ -39,7 +41,7 @@ NEXT Next
 CONSTRAINT LenBound
 """
 INVS = ["LifecycleOK", "EndWarmupAtMostOnce", "AdaptiveIffAdaptation", "TuneHistoryOK", "StoredOK",
-        "OrderRespected", "KeysFresh"]
+        "QuantsOK", "OrderRespected", "KeysFresh"]
 
 EXPECT_ACTIONS = ["ApiAppend", "ApiAppendRejected", "ApiSampleNext", "ApiSampleNextRaises", "ApiSampleAll",
                   "IStartEpoch", "IEndWarmup", "IInitialValues", "IPreStart", "IKStart", "IChunkBegin",
@@ -58,12 +60,12 @@ def handwritten(tier_quick: bool):
         # two posterior epochs, the second appended late; sample_next past the end raises
         dict(ops=[("append", I), ("append", C(1, 4, 2)), ("next",), ("next",), ("append", C(2, 2)),
                   ("append", C(4, 4, 2)), ("append", C(4, 2)), ("all",), ("next",)],
-             K=2, needs_hist=(2,), chains=2, J=2),
+             K=2, needs_hist=(2,), chains=2, J=2, nq=2),
         # everything up front through the builder (J = gcd), three kernels, rejected appends
         dict(ops=[("append", C(2, 3)), ("all",), ("append", C(4, 6, 3)), ("append", C(1, 3)), ("all",),
                   ("append", C(0, 1)), ("append", C(4, 4, 3)), ("next",)],
              init_cfgs=[I, C(1, 6, 2), C(3, 3), C(4, 9, 3)], K=3, needs_hist=(), chains=1,
-             via_builder=True, included=("const",), excluded=("p2",), store_kernel_states=True),
+             via_builder=True, included=("const",), excluded=("p2",), store_kernel_states=True, nq=1),
         # a key listed both as included and as excluded: excluded wins
         dict(ops=[("all",)], init_cfgs=[I, C(3, 2), C(4, 4, 2)], K=2, needs_hist=(), chains=1,
              via_builder=True, included=("const", "p2"), excluded=("p2", "const")[:1]),
@@ -96,7 +98,7 @@ def chunk_variants(tier_quick: bool):
 
 def simulated(chk: Check, n: int, maxlen: int = 4):
     """Interleavings generated by TLC's simulator from MC_GooseEngine (spec -> code)."""
-    cfg = MC_CFG.format(flag="TRUE", ks="{1, 2}", js="{1, 2}", durs="{2, 4}", maxlen=maxlen)
+    cfg = MC_CFG.format(flag="TRUE", ks="{1, 2}", js="{1, 2}", durs="{2, 4}", maxlen=maxlen, nqs="{0}")
     bs = simulate_behaviours("MC_GooseEngine.tla", cfg, tag=f"{chk.prop}-eng", num=n, depth=220,
                              seed=1 + chk.seed)
     out = []
@@ -178,15 +180,15 @@ def nontrivial(t):
 
 def mc(chk: Check, invs, quick_maxlen=3, thorough_maxlen=4):
     if chk.quick:
-        cfg = MC_CFG.format(flag="TRUE", ks="{1, 2}", js="{1, 2}", durs="{2, 4}", maxlen=quick_maxlen)
+        cfg = MC_CFG.format(flag="TRUE", ks="{1, 2}", js="{1, 2}", durs="{2, 4}", maxlen=quick_maxlen, nqs="{0, 1}")
         chk.mc("MC_GooseEngine.tla", cfg + "".join(f"INVARIANT {i}\n" for i in invs), tag="engine",
                expect_actions=EXPECT_ACTIONS, timeout=1500,
                what="all interleavings of append/sample_next/sample_all, <=%d epochs, K in {1,2}, J in {1,2}" % quick_maxlen)
     else:
-        cfg = MC_CFG.format(flag="TRUE", ks="{1, 2}", js="{1, 2}", durs="{2, 4}", maxlen=3)
+        cfg = MC_CFG.format(flag="TRUE", ks="{1, 2}", js="{1, 2}", durs="{2, 4}", maxlen=3, nqs="{0, 1}")
         chk.mc("MC_GooseEngine.tla", cfg + "".join(f"INVARIANT {i}\n" for i in invs), tag="engine-cov",
                expect_actions=EXPECT_ACTIONS, timeout=1500, what="<=3 epochs with action coverage")
-        cfg = MC_CFG.format(flag="TRUE", ks="{1, 2}", js="{1, 2}", durs="{2, 4}", maxlen=thorough_maxlen)
+        cfg = MC_CFG.format(flag="TRUE", ks="{1, 2}", js="{1, 2}", durs="{2, 4}", maxlen=thorough_maxlen, nqs="{0, 2}")
         from vlib.core import run_tlc
         res = run_tlc("MC_GooseEngine.tla", cfg + "".join(f"INVARIANT {i}\n" for i in invs),
                       tag=f"{chk.prop}-engine-deep", timeout=3000)
